@@ -93,3 +93,38 @@ fn f3_ascii_only_utf16_yaml_slice_equals_reader() {
 		assert_eq!((r1, o1), (Ok(()), o2), "slice and reader disagree for {bytes:02x?}");
 	}
 }
+
+/// F4 (C02/C01/C03, harness g1_chunkreader_step): a YAML stream whose first line is indented gives the
+/// same result through the chunker (reader input, format named) as from a slice.
+#[test]
+fn f4_indented_first_line_reader_equals_slice() {
+	struct Tiny<'a>(&'a [u8], usize);
+	impl std::io::Read for Tiny<'_> {
+		fn read(&mut self, b: &mut [u8]) -> std::io::Result<usize> {
+			let n = self.0.len().min(b.len()).min(self.1);
+			b[..n].copy_from_slice(&self.0[..n]);
+			self.0 = &self.0[n..];
+			Ok(n)
+		}
+	}
+	let docs = [
+		"  - x\n  - y\n",
+		"  a: 1\n  b: 2\n",
+		"\n  a: 1\n  b: 2\n",
+		"# c\n  a: 1\n  b: 2\n",
+		"  a:\n    c: 1\n  b: 2\n",
+		" - [1, 2]\n - k: v\n",
+		"k: 1\n---\n   a: 1\n   b: 2\n",
+		"    - deep\n    - indent\n---\n  - second\n  - doc\n",
+	];
+	for doc in docs {
+		let mut o1 = Vec::new();
+		let r1 = xt::translate_slice(doc.as_bytes(), Some(Format::Yaml), Format::Json, &mut o1).map_err(|e| e.to_string());
+		assert_eq!(r1, Ok(()), "{doc:?} from a slice");
+		for chunk in [1usize, 2, 5, 4096] {
+			let mut o2 = Vec::new();
+			let r2 = xt::translate_reader(Tiny(doc.as_bytes(), chunk), Some(Format::Yaml), Format::Json, &mut o2).map_err(|e| e.to_string());
+			assert_eq!((r2, String::from_utf8_lossy(&o2).into_owned()), (Ok(()), String::from_utf8_lossy(&o1).into_owned()), "{doc:?} from a reader (reads of {chunk}) differs from the slice result");
+		}
+	}
+}
